@@ -36,6 +36,11 @@ def mcs_case(inp):
         m2.find_common_subgraph(G1, G2, mcs=mcs)
         runs.append({"impl": "mtg", "mcs": mcs, "hasdir": False, "size": int(m2.last_size),
                      "g1g2": [pairs(x, i1, i2) for x in m2.get_mappings()], "g2g1": []})
+    # molecule-level matching (whole connected components are paired): every mapping must still be a valid common subgraph
+    mm = M1(node_attrs=NODE_ATTRS, node_defaults=["*", 0]).find_common_subgraph(G1, G2, mcs_mol=True)
+    runs.append({"impl": "matcher-molecule-level", "mcs": False, "hasdir": True, "size": int(mm.last_size),
+                 "g1g2": [pairs(x, i1, i2) for x in mm.get_mappings("G1_to_G2")],
+                 "g2g1": [pairs(x, i2, i1) for x in mm.get_mappings("G2_to_G1")]})
     # one matcher object used for an earlier, larger search (the graph against itself) and then for this pair:
     # the answer may not depend on what the object was asked before
     m = M1(node_attrs=NODE_ATTRS, node_defaults=["*", 0])
@@ -96,6 +101,12 @@ def random_pairs(rng: random.Random, n: int) -> List[Any]:
                     if rng.random() < 0.25:
                         b["adj"][u][v] = b["adj"][v][u] = rng.randint(1, 3)
             b = gl.permuted(b, rng)
+        elif r < 0.8:        # several copies of one fragment on both sides, numbered differently
+            frag = gl.random_graph(rng, rng.randint(2, 3), nlab=2, maxord=2, connected=True)
+            a = gl.disjoint_union(frag, gl.permuted(frag, rng))
+            if rng.random() < 0.5 and a["n"] + frag["n"] <= 7:
+                a = gl.disjoint_union(a, gl.random_graph(rng, 1, nlab=3))
+            b = gl.permuted(frag, rng) if rng.random() < 0.5 else gl.permuted(gl.disjoint_union(frag, gl.permuted(frag, rng)), rng)
         else:
             b = gl.random_graph(rng, rng.randint(2, 7), nlab=3, maxord=3, connected=rng.random() < 0.5)
         if b["n"] > 7:
